@@ -156,8 +156,11 @@ func (c *controller) convergeBalancer(l log.Logger, key string, svc *v1.Service)
 		}
 	}
 
-	// If svc currently has 1 ip and policy PreferDualStack, try assigning ip from the missing family and same pool
-	if len(lbIPs) == 1 && familyPolicy == v1.IPFamilyPolicyPreferDualStack {
+	// If svc currently has 1 ip and policy PreferDualStack, try assigning ip from the missing family and same pool.
+	// A PreferDualStack service of a single stack cluster has one cluster ip and must keep one address,
+	// otherwise the next sync sees a family change, clears the addresses and the service flaps forever.
+	if svcFamily, err := ipfamily.ForService(svc); err == nil && svcFamily == ipfamily.DualStack &&
+		len(lbIPs) == 1 && familyPolicy == v1.IPFamilyPolicyPreferDualStack {
 		level.Info(l).Log("event", "tryAssignAdditionalIP", "msg", "familyPolicy is PreferDualStack, trying to assign additional ip")
 		currentPool := c.ips.Pool(key)
 		// Try assigning a new ip with the missing stack and from the same pool.
